@@ -46,9 +46,6 @@ def trial(seed):
     return names, s.steps, e1.relation_name_counter
 
 
-
-for seed in range(200):
-
 if __name__ == "__main__":
     t=time.time(); tot=0; dup=0
     for seed in range(200):
